@@ -72,7 +72,7 @@ def check_disambiguation(run, fx):
                     g.add(classify_pick(res, lst, items))
             core_g = {x for x in g if x != "Err(Range)"} if case == "none" and d != "Reject" else g
             core_w = {x for x in want[case] if x != "Err(Range)"} if case == "none" and d != "Reject" else want[case]
-            if any(x.startswith("?") for x in core_g):
+            if any(x.startswith("?") or x.endswith("(shift ?)") for x in core_g):
                 run.ok(rule, "%s/%s" % (d, case), "the selected candidate is not recognisable in %s: not decided" % sorted(g),
                        f.loc, nontrivial=False)
                 continue
@@ -110,8 +110,8 @@ def classify_pick(res, lst, items=()):
     # a shifted probe: find NormalizedTimeDuration(+-(after - before))
     sign = None
     for x in walk(base):
-        if isinstance(x, H.V) and x.path.endswith("NormalizedTimeDuration") and x.args:
-            a = x.args[0]
+        a = _ntd_payload(x)
+        if a is not None:
             neg = isinstance(a, H.Sym) and a.what == "un-"
             inner = a.parts[0] if neg else a
             if isinstance(inner, H.Sym) and inner.what == "bin-":
@@ -124,11 +124,20 @@ def classify_pick(res, lst, items=()):
     return "%s(shift %s)" % (pick, sign or "?")
 
 
+def _ntd_payload(x):
+    """the nanoseconds a NormalizedTimeDuration is built from, whether it is a tuple struct or has one named field"""
+    if isinstance(x, H.V) and x.path.endswith("NormalizedTimeDuration") and len(x.args) == 1:
+        return x.args[0]
+    if isinstance(x, H.S) and x.path.endswith("NormalizedTimeDuration") and len(x.fields) == 1:
+        return x.fields[0][1]
+    return None
+
+
 def direction(t):
     """does the offset term come from the probe 3 h after or before?"""
     for x in walk(t):
-        if isinstance(x, H.V) and x.path.endswith("NormalizedTimeDuration") and x.args:
-            a = x.args[0]
+        a = _ntd_payload(x)
+        if a is not None:
             v = None
             if isinstance(a, int):
                 v = a
